@@ -4,7 +4,7 @@ import struct
 from hypothesis import strategies as st
 
 from harness import build, gen, simnet, wire, utf8ref, httpref, deflateref
-from harness.runner import Prop, Enumeration, held, failed
+from harness.runner import Prop, Enumeration, held, failed, after_every_prelude
 from props.c01 import effective_seg
 from props.c04 import deflate_reply
 
@@ -190,7 +190,17 @@ class C05(Prop):
             for a in range(0xC2, 0xF5):
                 for lo in range(0x80, 0xC0, 8):
                     yield {"layer": "blackbox", "unit": [a, lo, lo + 8]}
-        return [Enumeration("validator_automaton", groups, exhaustive=True)]
+        battery = [
+            # valid text (all UTF-8 lengths), whole and split inside characters; an invalid one
+            {"base": ["str", "a\u00e9\u20ac\U0001f600z"], "edits": [], "frag": [], "inter": [], "carriage": "plain",
+             "seg": "whole", "before": []},
+            {"base": ["str", "a\u00e9\u20ac\U0001f600z"], "edits": [], "frag": [2, 4, 7], "inter": [[1, "ping"]],
+             "carriage": "plain", "seg": "bytewise", "before": ["text"]},
+            {"base": ["hex", "61c328"], "edits": [], "frag": [], "inter": [], "carriage": "plain", "seg": "whole", "before": []},
+            {"base": ["str", "bye \u20ac"], "edits": [], "frag": [], "inter": [], "carriage": "close_reason", "seg": "whole",
+             "before": []},
+        ]
+        return [Enumeration("validator_automaton", groups, exhaustive=True), after_every_prelude(battery)]
 
     # -- hypothesis ----------------------------------------------------------------
     def strategy(self, tier):
@@ -210,6 +220,8 @@ class C05(Prop):
             "carriage": st.sampled_from(["plain", "plain", "plain", "deflate_uncompressed",
                                          "deflate_compressed", "close_reason"]),
             "seg": gen.segmentation(),
+            # an earlier connection in this process (same WebSocket object or another) and how it ended
+            "prelude": gen.prelude(),
             "before": st.lists(st.sampled_from(["text", "binary", "fragtext"]), max_size=2),
         })
 
